@@ -107,4 +107,11 @@ def fntab():
 
 
 def numeric(expr, digits=30):
-    return sp.N(expr.subs(NUM), digits)
+    expr = sp.sympify(expr)
+    sub = dict(NUM)
+    for s in expr.free_symbols:
+        if s.name == "pi":
+            sub[s] = sp.pi
+        elif s.name == "euler_gamma":
+            sub[s] = sp.EulerGamma
+    return sp.N(expr.subs(sub), digits + 20).evalf(digits)
